@@ -1,7 +1,7 @@
 (* TBC: the loop bodies translated from src/tbc_header/{encrypt,decrypt}.rs on this run, folded over
    the slice, are enc_loop / dec_loop of the model at key length PROOF_LENGTH. *)
 From Coq Require Import List NArith Lia.
-From WS Require Import lib.Bytes lib.Res lib.StepLoop Consts Steps model.HeaderCipher model.Rc4 proofs.steps.Common.
+From WS Require Import lib.Bytes lib.Res lib.Calls lib.StepLoop Consts Steps spec.HeaderCipher model.HeaderCipher model.Tbc proofs.HeaderCipher proofs.Tbc proofs.steps.Common.
 Import ListNotations.
 Local Open Scope N_scope.
 
@@ -31,3 +31,51 @@ Proof.
   destruct (dec_loop _ _ _ r) as [[s' out]|]; reflexivity.
 Qed.
 
+
+(* ---- the property-level statements, about the functions translated from the source ---- *)
+Definition half_view (r : nres (half * list N)) : option ((N * N) * list N) :=
+  match r with Ok (h, out) => Some (cst_pair (h_st h), out) | _ => None end.
+
+Lemma tbc_source_enc_run : forall chunks k s,
+  calls_loop (tr_tbc_encrypt_step k) (cst_pair s) chunks = half_view (run_calls encrypt {| h_key := k; h_st := s |} chunks).
+Proof.
+  induction chunks as [|c r IH]; intros k s; [reflexivity|].
+  cbn [calls_loop run_calls]. rewrite tbc_encrypt_translated. unfold encrypt at 1. cbn [h_key h_st].
+  destruct (enc_loop proof_length k s c) as [[s' o]|]; [|reflexivity].
+  cbn [loop_view]. rewrite IH.
+  destruct (run_calls encrypt {| h_key := k; h_st := s' |} r) as [[h' o']|e|]; [reflexivity|destruct e|reflexivity].
+Qed.
+
+Lemma tbc_source_dec_run : forall chunks k s,
+  calls_loop (tr_tbc_decrypt_step k) (cst_pair s) chunks = half_view (run_calls decrypt {| h_key := k; h_st := s |} chunks).
+Proof.
+  induction chunks as [|c r IH]; intros k s; [reflexivity|].
+  cbn [calls_loop run_calls]. rewrite tbc_decrypt_translated. unfold decrypt at 1. cbn [h_key h_st].
+  destruct (dec_loop proof_length k s c) as [[s' o]|]; [|reflexivity].
+  cbn [loop_view]. rewrite IH.
+  destruct (run_calls decrypt {| h_key := k; h_st := s' |} r) as [[h' o']|e|]; [reflexivity|destruct e|reflexivity].
+Qed.
+
+(* the key both halves derive is HMAC-SHA1(seed, K); from there the translated loops follow the recurrence *)
+Theorem tbc_source_enc_calls : forall K chunks,
+  calls_loop (tr_tbc_encrypt_step (tbc_key K)) (0, 0) chunks =
+  Some ((N.of_nat (length (concat chunks) mod 20), last (encrypt_stream (tbc_key K) (concat chunks)) 0),
+        encrypt_stream (tbc_key K) (concat chunks)).
+Proof.
+  intros K chunks. destruct (enc_calls K chunks) as (h & Hn & Hr).
+  change (0, 0) with (cst_pair {| c_idx := 0; c_prev := 0 |}). rewrite tbc_source_enc_run.
+  assert (Hh : h = {| h_key := tbc_key K; h_st := {| c_idx := 0; c_prev := 0 |} |}).
+  { destruct (new_spec K) as [E _]. rewrite E in Hn. injection Hn as <-. reflexivity. }
+  rewrite <- Hh, Hr. reflexivity.
+Qed.
+
+Theorem tbc_source_dec_calls : forall K chunks,
+  calls_loop (tr_tbc_decrypt_step (tbc_key K)) (0, 0) chunks =
+  Some ((N.of_nat (length (concat chunks) mod 20), last (concat chunks) 0), decrypt_stream (tbc_key K) (concat chunks)).
+Proof.
+  intros K chunks. destruct (dec_calls K chunks) as (h & Hn & Hr).
+  change (0, 0) with (cst_pair {| c_idx := 0; c_prev := 0 |}). rewrite tbc_source_dec_run.
+  assert (Hh : h = {| h_key := tbc_key K; h_st := {| c_idx := 0; c_prev := 0 |} |}).
+  { destruct (new_spec K) as [_ E]. rewrite E in Hn. injection Hn as <-. reflexivity. }
+  rewrite <- Hh, Hr. reflexivity.
+Qed.
